@@ -140,6 +140,29 @@ M = [
     ('C09', 'partial chain', 'pgpy.types', '                    return (1 << (fo & 0x1f), 1, True)', '                    return (1 << (fo & 0x0f), 1, True)'),
     ('C09', 'partial chain', 'pgpy.types', '                    del b[total:total + size]', '                    del b[total:total + 1]'),
     ('C09', 'partial chain', 'pgpy.types', '            if partial:\n                total = part_len', '            if partial:\n                total = part_len + 1'),
+    # contracts added with the third round of seeded changes
+    ('C08', 'PKESessionKeyV3.parse+', 'pgpy.packet.packets', "        self.encrypter = packet[:8]\n        del packet[:8]\n\n        self.pkalg = packet[0]", "        self.encrypter = packet[:8]\n        del packet[:7]\n\n        self.pkalg = packet[0]"),
+    ('C08', 'PKESessionKeyV3.parse+', 'pgpy.packet.packets', "        _bytes += binascii.unhexlify(self.encrypter.encode())\n        _bytes += bytearray([self.pkalg])", "        _bytes += bytearray([self.pkalg])\n        _bytes += binascii.unhexlify(self.encrypter.encode())"),
+    ('C08', 'SKESessionKeyV4.parse+', 'pgpy.packet.packets', "        ctend = self.header.length - len(self.s2k)", "        ctend = self.header.length - len(self.s2k) - 1"),
+    ('C08', 'SKESessionKeyV4.parse+', 'pgpy.packet.packets', "        _bytes += self.s2k.__bytearray__()[1:]\n        _bytes += self.ct\n        return _bytes\n\n    def __copy__(self):\n        sk = self.__class__()\n        sk.header = copy.copy(self.header)\n        sk.s2k", "        _bytes += self.s2k.__bytearray__()\n        _bytes += self.ct\n        return _bytes\n\n    def __copy__(self):\n        sk = self.__class__()\n        sk.header = copy.copy(self.header)\n        sk.s2k"),
+    ('C08', 'Opaque.parse+', 'pgpy.packet.types', "        if hasattr(self.header, 'version'):\n            pend -= 1\n", ""),
+    ('C08', 'Trust.parse+', 'pgpy.packet.packets', "        self._trustlevel = TrustLevel(val & 0x0F)\n        # the octets that were read no longer describe this packet\n        self._raw_body = None\n", "        self._trustlevel = TrustLevel(val & 0x0F)\n"),
+    ('C08', 'Trust.parse+', 'pgpy.packet.packets', "        body = packet[:self.header.length]\n        del packet[:self.header.length]\n\n        t = self.bytes_to_int(body[:2])", "        body = packet[:2]\n        del packet[:2]\n\n        t = self.bytes_to_int(body[:2])"),
+    ('C08', 'UserID.parse+', 'pgpy.packet.packets', "        uid._encoding_fallback = self._encoding_fallback\n", ""),
+    ('C08', 'UserID.parse+', 'pgpy.packet.packets', "        textenc = 'utf-8' if not self._encoding_fallback else 'charmap'", "        textenc = 'utf-8'"),
+    ('C08', 'CompressedData.parse', 'pgpy.packet.packets', "        cdata = bytearray(self.calg.decompress(packet[:self.header.length - 1]))\n        del packet[:self.header.length - 1]", "        cdata = bytearray(self.calg.decompress(packet[:self.header.length - 1]))\n        del packet[:self.header.length]"),
+    ('C08', 'CompressedData.parse', 'pgpy.packet.packets', "        while len(cdata) > 0:\n            self.packets.append(Packet(cdata))", "        while len(cdata) > 1:\n            self.packets.append(Packet(cdata))"),
+    ('C08', 'CompressedData.__bytearray__', 'pgpy.packet.packets', "        for pkt in self.packets:\n            _pb += pkt.__bytearray__()", "        for pkt in reversed(self.packets):\n            _pb += pkt.__bytearray__()"),
+    ('C20', 'CompressionAlgorithm.decompress', 'pgpy.constants', "return zlib.decompress(data, -15)", "return zlib.decompress(data, -13)"),
+    ('C20', 'CompressionAlgorithm.compress', 'pgpy.constants', "return zlib.compress(data)[2:-4]", "return zlib.compress(data)[2:]"),
+    ('C20', 'CompressionAlgorithm.decompress', 'pgpy.constants', "        if self is CompressionAlgorithm.BZ2:\n            return bz2.decompress(data)", "        if self is CompressionAlgorithm.BZ2:\n            return zlib.decompress(data)"),
+    ('C19', 'PGPKeyring.fingerprints', 'pgpy.pgp', "if pk.is_primary in [True if keytype in ['primary', 'any'] else None,", "if pk.is_primary in [True if keytype in ['primary'] else None,"),
+    ('C19', 'PGPKeyring.fingerprints', 'pgpy.pgp', "False if keyhalf in ['private', 'any'] else None]}", "False if keyhalf in ['private'] else None]}"),
+    ('C17', 'check_management', 'pgpy.pgp', "        res = self.self_verified\n        if self.is_expired:", "        res = self.self_verified\n        if self.is_expired and not self_verifying:"),
+    ('C13', 'PGPKey.encrypt[session key generated', 'pgpy.pgp', "        if sessionkey is None:\n            sessionkey = cipher_algo.gen_key()\n\n        # set up a new PKESessionKeyV3", "        if sessionkey is None:\n            sessionkey = getattr(message, '_sk', None) or cipher_algo.gen_key()\n            message._sk = sessionkey\n\n        # set up a new PKESessionKeyV3"),
+    ('C14', 'PGPKey.__copy__', 'pgpy.pgp', "            if sig.embedded:\n                # embedded signatures don't need to be explicitly copied\n                continue\n", ""),
+    ('C18', 'add_subkey', 'pgpy.pgp', "            npk.created = key._key.created", "            npk.created = self._key.created"),
+    ('C11', '__str__[cleartext', 'pgpy.pgp', "                   u\"{cleartext:s}\\n\" \\\n", "                   u\"{cleartext:s}\" \\\n"),
 ]
 
 
